@@ -2,6 +2,8 @@ import QmiModel.Lemmas.C08Steps
 import QmiModel.Lemmas.C07Unsub
 import QmiModel.Lemmas.C08Quiet
 import QmiModel.Lemmas.C08Live
+import QmiModel.Lemmas.C08NetLive
+import QmiModel.Lemmas.C08NetTok
 /-!
 # C08 — subscription state stays consistent through removal and disconnects
 
@@ -70,14 +72,14 @@ theorem failed_reply_leaves_nothing {cs cs' : CtxSt} {id : ReqId} {more : List M
           · intro pid' po' h1 h2 h3
             rw [hpid] at h1; simp only [Option.some.injEq] at h1; subst h1
             rw [hpo] at h2; simp only [Option.some.injEq] at h2; subst h2
-            exact absurd h3 hsub
+            exact absurd ⟨h3, by simp⟩ hsub
         · simp only [Option.some.injEq, Prod.mk.injEq] at hs
           obtain ⟨rfl, rfl, -⟩ := hs
           refine ⟨rfl, hr, by simp [upd], ?_⟩
           intro pid' po' h1 h2 h3
           rw [hpid] at h1; simp only [Option.some.injEq] at h1; subst h1
           rw [hpo] at h2; simp only [Option.some.injEq] at h2; subst h2
-          exact absurd h3 hsub
+          exact absurd ⟨h3, by simp⟩ hsub
 
 /-- **failed subscribe leaves nothing**: when a `subscribe` call learns that it failed (`pending_request.wait()` returns
 `False`), the step changes no table, the call raises the subscription error, and its pending request object is no longer
@@ -236,9 +238,174 @@ theorem disconnect_ends_both_ends :
 `Quiescent s`: nothing in flight (Lemmas/C08Quiet).  `Consistent s`: for live contexts `a`, `p` with a registered
 connection `cn` from `a` to `p`, and every (publisher, signal): `p` has `a` as remote subscriber ⇔ `a` has a receiver. -/
 
-/-- the full-strength statement of the property (not proved: it needs the request / reply / notice pipeline invariant,
-see the module documentation of Lemmas/C08Carrier) -/
+/-- the literal statement: every reachable quiescent state is consistent.  It is **false of the model** as it stands
+(`quiescent_consistency_needs_stop_completion` below): `Quiescent` does not look at the router flag, and a context whose
+`MessageRouter.stop` has begun (`Act.stopReq`: router marked inactive, `close_all` not yet run) drops every message it
+sends — also the removal notices of `handle_object_removed`. -/
 def QuiescentConsistency : Prop := ∀ s, Reach s → Quiescent s → Consistent s
+
+/-- the statement of the property: once nothing is in flight — and no context is half-way through its stop, which is an
+enabled continuation (`Act.stop`), i.e. something still in flight — the two tables agree.  It was false of the model of the
+tree with 3b40385 only (stale removal notice, `staleTrace` below; repaired).  **Not proved yet** for the current source: it
+needs the agreement invariant per (connection, key) on top of a linearity invariant for request tokens (every outstanding
+request id has exactly one carrier on the client side and at most one of: request in the server's inbox / server handler /
+reply in the server's queue / reply in the client's inbox); the pipeline invariants below it are mechanised (`TypInv`,
+`RegInv`, `OpenInv`, `IdInv`, `ReqInv`, Lemmas/C07Net*, C08Net*).  On the implementation the statement is checked per
+history by the C08 oracle (table iff in both directions, probes, transmitted-peer sets). -/
+def QuiescentConsistencySettled : Prop := ∀ s, Reach s → Quiescent s → NoStopPending s → Consistent s
+
+/-- Context 1 subscribes receiver 5 to object 0 / signal 0 of context 0 (handshake completes); context 0 begins to stop
+(router marked inactive); one of its threads removes object 0: `handle_object_removed` empties the remote-subscriber
+table, the removal notice is refused by the inactive router.  Nothing is in flight any more, context 0 has not run
+`close_all` yet: the subscriber still holds receiver 5. -/
+def stopTrace : List Act := [
+  .begin 0 0 (.makeObj 0), .micro (.user 0 0) 0 0, .micro (.user 0 0) 0 0, .micro (.user 0 0) 0 0,
+  .connect 1 0,
+  .begin 1 0 (.subscribe 0 0 0 5),
+  .micro (.user 1 0) 0 0, .micro (.user 1 0) 0 0, .micro (.user 1 0) 0 0,
+  .cb 1 true, .arrive 0 false,
+  .micro (.sock 0) 0 0, .micro (.sock 0) 0 0, .micro (.sock 0) 0 0, .micro (.sock 0) 0 0, .micro (.sock 0) 0 0,
+  .cb 0 true, .arrive 0 true, .micro (.sock 1) 0 0,
+  .micro (.user 1 0) 0 0, .micro (.user 1 0) 0 0,
+  .stopReq 0,
+  .begin 0 1 (.removeObj 0),
+  .micro (.user 0 1) 0 0, .micro (.user 0 1) 0 0, .micro (.user 0 1) 0 1, .micro (.user 0 1) 0 0, .micro (.user 0 1) 0 0]
+
+private theorem stopTrace_below : ∀ a ∈ stopTrace, a.below 2 2 := by
+  intro a ha
+  simp only [stopTrace, List.mem_cons, List.not_mem_nil, or_false] at ha
+  rcases ha with rfl | rfl | rfl | rfl | rfl | rfl | rfl | rfl | rfl | rfl | rfl | rfl | rfl | rfl | rfl | rfl | rfl | rfl |
+    rfl | rfl | rfl | rfl | rfl | rfl | rfl | rfl | rfl | rfl <;> simp [Act.below, Th.below]
+
+/-- **the literal statement is false of the model; the hypothesis `NoStopPending` of `QuiescentConsistencySettled` is
+necessary**: the final state of `stopTrace` is reachable and quiescent, context 0 is live but stopping, and the tables
+disagree.  (Not a defect of the code: there `MessageRouter.stop` is one call that goes on to `close_all`, after which the
+subscriber sees end-of-stream and `handle_peer_context_removed` empties its table.) -/
+theorem quiescent_consistency_needs_stop_completion : ¬ QuiescentConsistency := by
+  intro hq
+  have hrun : (run State.init stopTrace).isSome = true := by decide
+  obtain ⟨s, hs⟩ := Option.isSome_iff_exists.1 hrun
+  have hreach : Reach s := reach_run Reach.init hs
+  have hown : OwnersBelow State.init 2 := by intro cn cli; cases cli <;> simp [State.init, Conn.half, Half.init]
+  obtain ⟨hctx, hprog⟩ := run_bounded (B := 2) (T := 2) (by decide) stopTrace hs stopTrace_below hown
+  have ev1 : (run State.init stopTrace).map (fun s =>
+      ((s.ctx 0).alive, (s.ctx 1).alive, (s.ctx 0).loopQ, (s.ctx 1).loopQ)) = some (true, true, [], []) := by decide
+  have ev2 : (run State.init stopTrace).map (fun s =>
+      ((s.prog (.user 0 0)).isEmpty, (s.prog (.user 0 1)).isEmpty, (s.prog (.user 1 0)).isEmpty, (s.prog (.user 1 1)).isEmpty,
+       (s.prog (.sock 0)).isEmpty, (s.prog (.sock 1)).isEmpty)) = some (true, true, true, true, true, true) := by decide
+  have ev3 : (run State.init stopTrace).map (fun s =>
+      ((s.ctx 1).peers (.name 0), (s.ctx 0).rsubs ⟨0, 0⟩, (s.ctx 1).lsubs ⟨.name 0, 0, 0⟩)) = some (some 0, [], [5]) := by decide
+  have ev4 : (run State.init stopTrace).map (fun s =>
+      ((s.ctx 0).nextReq, (s.ctx 1).nextReq, (s.ctx 1).byId 0, s.nextConn)) = some (0, 1, none, 1) := by decide
+  have ev5 : (run State.init stopTrace).map (fun s =>
+      ((s.conn 0).cli.inbox, (s.conn 0).srv.inbox, (s.conn 0).cli.isOpen, (s.conn 0).srv.isOpen)) = some ([], [], true, true) := by decide
+  rw [hs] at ev1 ev2 ev3 ev4 ev5
+  simp only [Option.map_some, Option.some.injEq, Prod.mk.injEq] at ev1 ev2 ev3 ev4 ev5
+  obtain ⟨e1, e2, e3, e4⟩ := ev1
+  simp only [List.isEmpty_iff] at ev2
+  obtain ⟨e5, e6, e7, e8, e9, e10⟩ := ev2
+  obtain ⟨e11, e12, e13⟩ := ev3
+  obtain ⟨e14, e15, e16, e17⟩ := ev4
+  obtain ⟨e18, e19, e20, e21⟩ := ev5
+  have lt_two : ∀ {n : Nat}, n < 2 → n = 0 ∨ n = 1 := by intro n h; omega
+  have lt_one : ∀ {n : Nat}, n < 1 → n = 0 := by intro n h; omega
+  have hcons := hq s hreach ?_
+  · have := (hcons 1 0 0 0 0 e2 e1 e11).2 (by rw [e13]; simp)
+    rw [e12] at this; simp at this
+  · have hpendInv := pendInv_reach hreach
+    have hcases : ∀ c : Nat, c = 0 ∨ c = 1 ∨ 2 ≤ c := by intro c; omega
+    have hinit : ∀ c, 2 ≤ c → s.ctx c = CtxSt.init := fun c hc => by rw [hctx c hc]; rfl
+    constructor
+    · intro th _
+      by_cases hb : th.below 2 2
+      · cases th with
+        | user c t =>
+          simp only [Th.below] at hb
+          have hc : c = 0 ∨ c = 1 := lt_two hb.1
+          have ht : t = 0 ∨ t = 1 := lt_two hb.2
+          rcases hc with rfl | rfl <;> rcases ht with rfl | rfl <;> assumption
+        | sock c =>
+          simp only [Th.below] at hb
+          have hc : c = 0 ∨ c = 1 := lt_two hb
+          rcases hc with rfl | rfl <;> assumption
+      · rw [hprog th hb]; rfl
+    · intro c _
+      rcases hcases c with rfl | rfl | hc
+      · exact e3
+      · exact e4
+      · rw [hinit c hc]; rfl
+    · intro c id _
+      rcases hcases c with rfl | rfl | hc
+      · rcases Nat.lt_or_ge id (s.ctx 0).nextReq with h | h
+        · rw [e14] at h; exact absurd h (Nat.not_lt_zero _)
+        · exact ((hpendInv 0).fresh id h).1
+      · rcases Nat.lt_or_ge id (s.ctx 1).nextReq with h | h
+        · rw [e15] at h
+          have : id = 0 := lt_one h
+          subst this; exact e16
+        · exact ((hpendInv 1).fresh id h).1
+      · rw [hinit c hc]; rfl
+    · intro cn cli hlt hopen _
+      rw [e17] at hlt
+      have : cn = 0 := lt_one hlt
+      subst this
+      cases cli <;> simp only [Conn.half, Bool.not_true, Bool.not_false] at hopen ⊢
+      · exact ⟨e19, e20⟩
+      · exact ⟨e18, e21⟩
+
+/-- **Stale removal notice** (found while mechanising the agreement invariant; repaired in /repo by the completion of
+3b40385).  Context 1 is subscribed (receiver 5) to object 0 / signal 0 of context 0.  A thread of context 0 removes
+object 0 and is pre-empted between the lock section of `handle_object_removed` (remote-subscriber table emptied, notice for
+context 1 computed) and `send_message`.  Context 1 unsubscribes (complete round trip).  The removing thread goes on
+(notice handed to the event loop, name released), the object is created again, context 1 subscribes again: the notice —
+about a subscription it has already given up — reaches it while the new request is pending and marks it; the publisher
+accepts the request and registers context 1.  On the tree with 3b40385 only, the success reply was handled as a failure
+("the remote side has already dropped us" — it had not): the subscribe call raised and the publisher kept transmitting to a
+context without receiver.  Now the marked success makes the subscriber ask again; the second reply is a success and both
+tables agree. -/
+def staleTrace : List Act := [
+  .begin 0 0 (.makeObj 0), .micro (.user 0 0) 0 0, .micro (.user 0 0) 0 0, .micro (.user 0 0) 0 0,
+  .connect 1 0,
+  .begin 1 0 (.subscribe 0 0 0 5),
+  .micro (.user 1 0) 0 0, .micro (.user 1 0) 0 0, .micro (.user 1 0) 0 0,
+  .cb 1 true, .arrive 0 false,
+  .micro (.sock 0) 0 0, .micro (.sock 0) 0 0, .micro (.sock 0) 0 0, .micro (.sock 0) 0 0, .micro (.sock 0) 0 0,
+  .cb 0 true, .arrive 0 true, .micro (.sock 1) 0 0,
+  .micro (.user 1 0) 0 0, .micro (.user 1 0) 0 0,
+  -- context 0 removes the publisher; the removing thread is pre-empted after the lock section of handle_object_removed
+  .begin 0 1 (.removeObj 0), .micro (.user 0 1) 0 0, .micro (.user 0 1) 0 0,
+  -- context 1 unsubscribes (complete round trip)
+  .begin 1 0 (.unsubscribe 0 0 0 5), .micro (.user 1 0) 0 0, .micro (.user 1 0) 0 0, .micro (.user 1 0) 0 0, .micro (.user 1 0) 0 0,
+  .cb 1 true, .arrive 0 false, .micro (.sock 0) 0 0, .micro (.sock 0) 0 0, .micro (.sock 0) 0 0,
+  .cb 0 true, .arrive 0 true, .micro (.sock 1) 0 0,
+  -- the removing thread goes on: notice handed to the event loop, name released; the publisher is created again
+  .micro (.user 0 1) 0 1, .micro (.user 0 1) 0 0, .micro (.user 0 1) 0 0, .micro (.user 0 1) 0 0,
+  .begin 0 0 (.makeObj 0), .micro (.user 0 0) 0 0, .micro (.user 0 0) 0 0, .micro (.user 0 0) 0 0,
+  -- context 1 subscribes again; the stale notice arrives while the request is pending
+  .begin 1 0 (.subscribe 0 0 0 5), .micro (.user 1 0) 0 0, .micro (.user 1 0) 0 0, .micro (.user 1 0) 0 0,
+  .cb 0 true, .arrive 0 true, .micro (.sock 1) 0 0,
+  .cb 1 true, .arrive 0 false,
+  .micro (.sock 0) 0 0, .micro (.sock 0) 0 0, .micro (.sock 0) 0 0, .micro (.sock 0) 0 0, .micro (.sock 0) 0 0,
+  .cb 0 true, .arrive 0 true, .micro (.sock 1) 0 0,      -- marked success reply: ask again
+  .micro (.sock 1) 0 0, .micro (.sock 1) 0 0, .cb 1 true, .arrive 0 false,
+  .micro (.sock 0) 0 0, .micro (.sock 0) 0 0, .micro (.sock 0) 0 0, .micro (.sock 0) 0 0, .micro (.sock 0) 0 0,
+  .cb 0 true, .arrive 0 true, .micro (.sock 1) 0 0,      -- second reply: success
+  .micro (.user 1 0) 0 0, .micro (.user 1 0) 0 0]
+
+/-- regression example: the history of the stale removal notice now ends with both tables in agreement and nothing in flight -/
+theorem staleTrace_ends_consistent :
+    (run State.init staleTrace).map (fun s =>
+      ((s.ctx 0).rsubs ⟨0, 0⟩, (s.ctx 1).lsubs ⟨.name 0, 0, 0⟩, (s.ctx 1).byKey ⟨.name 0, 0, 0⟩)) =
+      some ([.alias 0], [5], none) ∧
+    (run State.init staleTrace).map (fun s =>
+      ((s.prog (.user 1 0)).isEmpty, (s.prog (.sock 0)).isEmpty, (s.prog (.sock 1)).isEmpty, (s.ctx 0).loopQ.isEmpty,
+       (s.ctx 1).loopQ.isEmpty)) = some (true, true, true, true, true) := by
+  constructor <;> decide
+
+/-- … and the re-subscribe of that history returns normally -/
+theorem staleTrace_subscribe_returns :
+    ((run State.init staleTrace.dropLast).bind fun s => (step s (.micro (.user 1 0) 0 0)).map Prod.snd) =
+    some (.ret (.sub ⟨.name 0, 0, 0⟩ 5)) := by decide
 
 /-- Historical example (DESIGN §7 l, repaired in /repo by the commit "a removal notice that overtakes the reply to a
 pending subscribe no longer leaves a dead subscription"): context 1 subscribes receiver 5 to object 0 / signal 0 of
@@ -270,7 +437,10 @@ def raceTrace : List Act := [
   .micro (.sock 0) 0 0,              -- reply enqueued: *behind* the notice
   .cb 0 true, .cb 0 true,            -- notice, then reply, written to the connection
   .arrive 0 true, .micro (.sock 1) 0 0,     -- notice processed: the pending subscribe request is marked
-  .arrive 0 true, .micro (.sock 1) 0 0,     -- overtaken success reply processed as a failure
+  .arrive 0 true, .micro (.sock 1) 0 0,     -- marked success reply: mark cleared, the request is sent once more
+  .micro (.sock 1) 0 0, .micro (.sock 1) 0 0, .cb 1 true, .arrive 0 false,
+  .micro (.sock 0) 0 0, .micro (.sock 0) 0 0, .micro (.sock 0) 0 0,   -- the publisher is gone: failure reply
+  .cb 0 true, .arrive 0 true, .micro (.sock 1) 0 0,
   .micro (.user 1 0) 0 0, .micro (.user 1 0) 0 0]   -- subscribe raises QMI_SignalSubscriptionException
 
 /-- regression example: the racing schedule now ends consistent (kernel evaluation of the model) -/
@@ -295,19 +465,36 @@ release the waiters; that *every* outstanding request does reach one of them (ca
 connection and the peer's socket thread, as for C01) is not mechanised — on the implementation side it is observed as
 "the deterministic scheduler never reports a deadlock" (clause `blocks-forever`). -/
 
-/-- (1) a reply — success, failure, or the error reply generated for a closed connection — to a *subscribe* request
-completes the pending object, after which `wait` is enabled and returns the reply's verdict (a success that was
-overtaken by the removal notice of its publisher counts as a failure) -/
+/-- (1) a reply — success, failure, or the error reply generated for a closed connection — to a *subscribe* request that
+has not been marked by a removal notice completes the pending object, after which `wait` is enabled and returns the
+reply's verdict -/
 theorem reply_releases_waiters {s : State} {th th' : Th} {id pid : ReqId} {ok : Bool} {po : PObj} {rest rest' : List MOp}
     (hc : th'.ctx = th.ctx)
-    (hid : (s.ctx th.ctx).byId id = some pid) (hpo : (s.ctx th.ctx).pobj pid = some po) (hsub : po.sub = true) :
+    (hid : (s.ctx th.ctx).byId id = some pid) (hpo : (s.ctx th.ctx).pobj pid = some po) (hsub : po.sub = true)
+    (hnm : ¬ (ok = true ∧ po.cancelled = true)) :
     ∃ s' o, microStep s th 0 0 (.handleReply id ok) rest = some (s', o) ∧
-      (s'.ctx th.ctx).pobj pid = some { po with done := some (ok && !po.cancelled) } ∧
+      (s'.ctx th.ctx).pobj pid = some { po with done := some ok } ∧
       (microStep s' th' 0 0 (.wait pid) rest').isSome = true := by
-  simp only [microStep, handleReplyStep, hid, hpo, hsub, if_true]
+  have hok : (ok && !po.cancelled) = ok := by
+    cases ok <;> cases hcn : po.cancelled <;> simp_all
+  simp only [microStep, handleReplyStep, hid, hpo, hsub, hnm, true_and, not_false_eq_true, if_true, hok]
   refine ⟨_, _, rfl, by simp [upd], ?_⟩
   simp only [setProg_ctx, setCtx_ctx, hc, if_true, upd]
-  cases (ok && !po.cancelled) <;> simp
+  cases ok <;> simp
+
+/-- (1') a success reply to a subscribe request that was marked by a removal notice while it was pending is not taken as
+the verdict (the notice may have overtaken the reply, or belong to a subscription already given up): the mark is cleared
+and the request is sent once more under a fresh id; the next reply decides.  A re-send therefore needs a removal notice
+to have arrived since the previous (re-)send: it cannot repeat by itself. -/
+theorem marked_success_is_resent {s : State} {th : Th} {id pid : ReqId} {po : PObj} {rest : List MOp}
+    (hid : (s.ctx th.ctx).byId id = some pid) (hpo : (s.ctx th.ctx).pobj pid = some po) (hsub : po.sub = true)
+    (hm : po.cancelled = true) :
+    ∃ s' o, microStep s th 0 0 (.handleReply id true) rest = some (s', o) ∧
+      (s'.ctx th.ctx).pobj pid = some { po with sub := true, cancelled := false, cur := (s.ctx th.ctx).nextReq } ∧
+      (s'.ctx th.ctx).byId (s.ctx th.ctx).nextReq = some pid ∧
+      s'.prog th = .sendChk po.key.pc (.subReq (s.ctx th.ctx).nextReq po.key.ob po.key.sg true) :: rest := by
+  simp only [microStep, handleReplyStep, hid, hpo, hsub, hm, and_self, not_true_eq_false, and_false, if_false, true_or, if_true]
+  exact ⟨_, _, rfl, by simp [upd], by simp [upd], by simp⟩
 
 /-- (2) a request whose local send fails (peer unknown, or `sendall` raises in the socket thread) is answered at once by
 an error reply handled in the same thread -/
@@ -342,6 +529,20 @@ theorem no_request_is_lost {s : State} (h : Reach s) {c : Ctx} {id : ReqId}
     (hal : (s.ctx c).alive = true) (hid : (s.ctx c).byId id ≠ none) : Carrier s c id :=
   carrierInv_reach h c id hal hid
 
+/-- **no request is duplicated** (client side, Lemmas/C08NetTok): in every reachable state the request ids carried by
+the programs of a context's threads (a send about to happen, a reply or error reply about to be handled), by its event-loop
+queue and by the pending tables of its connection ends are pairwise distinct — together with `no_request_is_lost`: every
+outstanding request has exactly one carrier. -/
+theorem no_request_is_duplicated {s : State} (h : Reach s) : TokInv s := tokInv_reach h
+
+/-- **the server side invents nothing** (Lemmas/C08NetTok): the requests of a connection that are with the server — replies
+in the client's inbox, replies in the server's event-loop queue, the server's handler, requests in the server's inbox, in
+this (pipeline) order — form a subsequence of the pending table of the open client end: every reply answers a registered
+request, at most once, and replies come back in the order of the requests. -/
+theorem server_side_requests_are_registered {s : State} (h : Reach s) (n : ConnId)
+    (hopen : ((s.conn n).half true).isOpen = true) : (srvPipe s n).Sublist ((s.conn n).half true).pend :=
+  (srvInv_reach h).pipe n hopen
+
 /-- **only the two waits can block**: the head operation of every thread other than `pending_request.wait()` and the
 `future.wait()` of `disconnect_from_peer` is enabled in every reachable state (for a suitable iteration order); in
 particular a reply or error reply is always processed, and a lock section never deadlocks in the model. -/
@@ -364,14 +565,52 @@ theorem waiting_call_has_outstanding_request {s : State} (h : Reach s) {th : Th}
     · exact Or.inl h1
     · exact Or.inr (hpk.byKey_cur _ pid po h1 hpo)
 
-/-- **subscribe terminates — partial.**  If no internal action is enabled (`Stuck`: no thread can continue, no socket
-thread has a callback, a message or an end-of-stream to process), then no live context has an outstanding request and
-no thread of a live context is inside a `subscribe` / `unsubscribe` call.  Missing hypothesis, spelled out as
-`NetLive`: a request registered on a connection end (`_pending_requests`) always has an enabled internal action — its
-request message in the peer's inbox, the peer's handler, the reply in the peer's queue or in our inbox, or the
-end-of-stream / teardown of the connection (the peer-side half of the carrier invariant).  Termination of the internal
-activity itself (a measure decreasing along internal actions) is not mechanised either; on the implementation both
-are observed as "the deterministic scheduler never reports a deadlock" (oracle clause `blocks-forever`). -/
+/-- **the peer-side half of the carrier invariant** (Lemmas/C08NetOpen, C08NetId, C08NetLive): in every reachable state in
+which no context is half-way through `MessageRouter.stop`, an outstanding request that is registered on a connection end
+of a live context has an enabled internal action.  (`ReqInv`: the request is in the server's inbox, with the server's
+handler, as a reply in the server's queue or in the client's inbox, in the client's reply handler — or the server end is
+closed, and then end-of-stream or the teardown answers it.) -/
+theorem net_live_outstanding {s : State} (h : Reach s) (hns : NoStopPending s) : NetLiveOut s := net_live h hns
+
+/-- **subscribe terminates (full strength).**  In every reachable state in which no internal action is enabled (`Stuck`:
+no thread can continue, no socket thread has a callback, a message or an end-of-stream to process) and no context is
+half-way through its stop (then `Act.stop` is an enabled continuation), no live context has an outstanding request and no
+thread of a live context is inside a `subscribe` / `unsubscribe` call — also when the peer disappeared while the request
+was outstanding.  The hypothesis about the stop is necessary: see `waitTrace_subscribe_waits_for_stopping_peer`. -/
+theorem subscribe_terminates {s : State} (h : Reach s) (hst : Stuck s) (hns : NoStopPending s) :
+    (∀ c id, (s.ctx c).alive = true → (s.ctx c).byId id = none) ∧
+    (∀ th, (s.ctx th.ctx).alive = true → s.prog th = [] ∨ ∃ rest, s.prog th = .waitFut :: rest) :=
+  stuck_implies_answered_full h hst hns
+
+/-- why `NoStopPending` is needed: context 0 has begun to stop (router inactive, `close_all` not yet run) when the
+subscription request of context 1 arrives; its handler registers the subscriber, the reply is refused by the inactive
+router.  Nothing is queued or in transit anywhere, the request is still registered on the open connection and the
+`subscribe` call waits — until `Act.stop 0` (the continuation of the stop) closes the connection. -/
+def waitTrace : List Act := [
+  .begin 0 0 (.makeObj 0), .micro (.user 0 0) 0 0, .micro (.user 0 0) 0 0, .micro (.user 0 0) 0 0,
+  .connect 1 0,
+  .stopReq 0,
+  .begin 1 0 (.subscribe 0 0 0 5),
+  .micro (.user 1 0) 0 0, .micro (.user 1 0) 0 0, .micro (.user 1 0) 0 0,
+  .cb 1 true, .arrive 0 false,
+  .micro (.sock 0) 0 0, .micro (.sock 0) 0 0, .micro (.sock 0) 0 0, .micro (.sock 0) 0 0]
+
+theorem waitTrace_subscribe_waits_for_stopping_peer :
+    (run State.init waitTrace).map (fun s =>
+      (s.prog (.user 1 0), (s.prog (.sock 0)).isEmpty, (s.prog (.sock 1)).isEmpty, (s.ctx 0).loopQ.isEmpty, (s.ctx 1).loopQ.isEmpty)) =
+      some ([.wait 0, .ret (.sub ⟨.name 0, 0, 0⟩ 5)], true, true, true, true) ∧
+    (run State.init waitTrace).map (fun s =>
+      ((s.conn 0).cli.pend, (s.conn 0).cli.inbox.isEmpty, (s.conn 0).srv.inbox.isEmpty, (s.conn 0).cli.isOpen, (s.conn 0).srv.isOpen)) =
+      some ([0], true, true, true, true) ∧
+    (run State.init waitTrace).map (fun s => ((s.ctx 0).routerDown, (s.ctx 0).alive, (s.ctx 1).byId 0)) = some (true, true, some 0) ∧
+    ((run State.init (waitTrace ++ [.stop 0, .eof 0 true, .micro (.sock 1) 0 0, .micro (.sock 1) 0 0, .micro (.sock 1) 0 0,
+        .micro (.sock 1) 0 0, .micro (.user 1 0) 0 0])).bind fun s => (step s (.micro (.user 1 0) 0 0)).map Prod.snd) =
+      some (.exc .subscription (.sub ⟨.name 0, 0, 0⟩ 5)) := by
+  refine ⟨by decide, by decide, by decide, by decide⟩
+
+/-- **subscribe terminates — conditional form** (kept: the interface between the local layer and the network layer).
+`NetLive` quantifies over *all* registered request ids, `net_live_outstanding` over the outstanding ones, which is what
+the argument uses. -/
 theorem subscribe_terminates_partial {s : State} (h : Reach s) (hst : Stuck s) (hnet : NetLive s) :
     (∀ c id, (s.ctx c).alive = true → (s.ctx c).byId id = none) ∧
     (∀ th, (s.ctx th.ctx).alive = true → s.prog th = [] ∨ ∃ rest, s.prog th = .waitFut :: rest) :=
